@@ -762,6 +762,8 @@ func (p *Path) callBuiltin(caller *frame, callpos token.Pos, fn *ssa.Builtin, ar
 				return ts.BV(64, 0)
 			}
 			return ts.BV(64, uint64(len(x.buf)))
+		case *OpaqueBytes:
+			return x.length
 		}
 	case "cap":
 		switch x := args[0].(type) {
